@@ -1,7 +1,7 @@
 (* Properties/C08.v — verify reports exactly the differences. *)
 From Coq Require Import List Ascii String.
-From GT Require Import Base.GoStr Tree.Tree Tree.Grower Api.Simple Fs.FsModel Fs.Mkdir Fs.Verify Api.Programmable
-  Proofs.Paths Proofs.FsBasic Proofs.Programmable Proofs.MkdirExact.
+From GT Require Import Base.GoStr Tree.Tree Tree.Grower Api.Simple Fs.FsModel Fs.Mkdir Fs.Verify Api.Programmable Spec.Spec
+  Proofs.Paths Proofs.FsBasic Proofs.Programmable Proofs.MkdirExact Proofs.SpelledTop Proofs.VerifyExact.
 Import ListNotations.
 
 (* per root: nil iff every node path exists and, in strict mode, nothing else exists beneath it *)
@@ -22,6 +22,44 @@ Theorem C08_sound : forall strict target f g e m,
   (forall p, In p e -> strict = true /\ In p (entries_under f (tjoin target (gpath g))) /\ ~ In p (md_paths target g)).
 Proof. exact verify_root_lists. Qed.
 Print Assumptions C08_sound.
+
+(* EXACTLY the differences, for one root: the missing list is the node paths (pre-order) that are
+   no entry beneath the root, the extra list (strict only) the entries beneath the root that are no
+   node path, in walk order; for an absent root every node path is missing and nothing is extra *)
+Theorem C08_root_exact : forall strict target f g e m,
+  verify_root strict target f g = VFail e m <->
+  (stat f (rootp target g) = StNone /\ e = [] /\ m = md_paths target g) \/
+  (root_exists f (rootp target g) /\ m = missing_of target f g /\
+   e = (if strict then extra_of target f g else []) /\ (m <> [] \/ e <> [])).
+Proof. exact verify_root_fail_exact. Qed.
+Print Assumptions C08_root_exact.
+
+(* the forest: nil iff every root matches; otherwise the error is that of the FIRST root that
+   differs, with exactly its lists (a Stat failure other than "does not exist" is an OS error) *)
+Theorem C08_exact : forall strict target f gs,
+  (verifier strict target f gs = Ok tt <-> forall g, In g gs -> root_matches strict target f g) /\
+  (verifier strict target f gs <> Ok tt ->
+   exists gs1 g gs2, gs = gs1 ++ g :: gs2 /\ (forall g', In g' gs1 -> root_matches strict target f g') /\
+     ~ root_matches strict target f g /\
+     verifier strict target f gs = match stat f (rootp target g) with
+       | StErr => Err EOs
+       | StNone => Err (EVerify [] (md_paths target g))
+       | _ => Err (EVerify (if strict then extra_of target f g else []) (missing_of target f g)) end).
+Proof. exact verifier_exact. Qed.
+Print Assumptions C08_exact.
+
+(* the entry points, From-Root and From-Markdown (every spelling of a forest): names are validated
+   first, the world is unchanged, and the result is the specification above *)
+Theorem C08_entry_points_exact : forall c strict dir f ts r,
+  verify_trees c strict dir f ts = r <-> verify_spec c strict dir f ts r.
+Proof. exact verify_trees_exact. Qed.
+Print Assumptions C08_entry_points_exact.
+
+Theorem C08_markdown_exact : forall sp fo w c strict dir, spells sp fo ->
+  exists r, pstep w (PMdVerify c strict dir (bytes_of sp)) = (w, OFs [] r (w_fs w)) /\
+            verify_spec c strict dir (w_fs w) (map trie_of fo) r.
+Proof. exact pmdverify_spelled. Qed.
+Print Assumptions C08_markdown_exact.
 
 (* a tree just created by mkdir, with ANY extension list, verifies -- strictly and non-strictly *)
 Theorem C08_after_mkdir : forall bf exts tc ts f,
